@@ -14,8 +14,8 @@ from esim.run import RunCtx, Tap, FaultyDest, run_program
 from . import base
 
 ID = "C02"
-QUICK_RUNS = 5000
-THOROUGH_RUNS = 300000
+QUICK_RUNS = 15000
+THOROUGH_RUNS = 600000
 LEVEL = "exploration"
 RULE = ("one run = one generated program (no failing serializers) in a SEQ/THREADS/ASYNC world with a tap and "
         "0-3 destinations raising on a drawn mask of their calls; oracle on the tap's records: field types, "
